@@ -81,7 +81,7 @@ pub fn check_text(text: &str, expect_tree: Option<&Iface>, stats: &mut Stats) ->
         // carve-out: a carriage return without a line feed may end a comment line (zlink's reading)
         // or belong to the comment; the tokens are compared under whichever reading fits
         let some_reading_fits = || vcommon::idl::lone_cr_readings(text).iter().skip(1).any(|alt| grouped_tokens(alt.trim()) == from_tree);
-        if from_text != from_tree && !some_reading_fits() {
+        if from_text != from_tree && !vcommon::idl::too_many_lone_crs(text) && !some_reading_fits() {
             let k = from_text.iter().zip(&from_tree).position(|(a, b)| a != b).unwrap_or(from_text.len().min(from_tree.len()));
             return Err(Fail::new(
                 "accepted-while-ignoring-part-of-the-text",
